@@ -271,9 +271,12 @@ def load_known_findings():
 
 def match_known(known, prop, ob_id, ob):
     for k in known:
-        if k.get("property") != prop:
+        props = k.get("property")
+        if prop not in (props if isinstance(props, list) else [props]):
             continue
-        if not fnmatch.fnmatchcase(ob_id, k["obligation"]):
+        # the obligation id of a contract that serves several properties differs only in its prefix
+        pat = k["obligation"]
+        if not fnmatch.fnmatchcase(ob_id, pat) and not fnmatch.fnmatchcase(ob_id.split("/", 1)[1], pat.split("/", 1)[1] if "/" in pat else pat):
             continue
         return k
     return None
